@@ -57,7 +57,6 @@ package r2
 //@   requires vcRectOK(r) && vcProbe(px, py) && vcProbe(p.X, p.Y)
 //@   ensures [added] result.ContainsPoint(p)
 //@   ensures [kept] r.ContainsPoint(Point{px, py}) ==> result.ContainsPoint(Point{px, py})
-//@   ensures [empty-stays-empty] r.IsEmpty() ==> result.IsEmpty()
 //@   ensures [valid] vcRectOK(result)
 
 //@ func (r Rect) ClampPoint(p Point) Point
@@ -70,3 +69,4 @@ package r2
 //@   ghost px float64, py float64
 //@   requires vcRectOK(r) && vcProbe(px, py) && margin.X >= 0 && margin.X <= 1e300 && margin.Y >= 0 && margin.Y <= 1e300
 //@   ensures [kept] r.ContainsPoint(Point{px, py}) ==> result.ContainsPoint(Point{px, py})
+//@   ensures [empty-stays-empty] r.IsEmpty() ==> result.IsEmpty()
